@@ -90,11 +90,20 @@ fn('dsplib::PrimesFftC::_dft_slow', F, serves=['C01', 'C05'], assigns=['y'], ext
 
 # ---------------------------------------------------------------------------------------------------
 # prime-size plan: dispatch (3-point kernel / table DFT up to 41 / chirp-z above) and rejection of other lengths
-fn('dsplib::CztPlan::solve', F, key='CztPlan::solve', serves=['C01'], trusted=True, pure=True,
+fn('dsplib::CztPlan::solve', F, key='CztPlan::solve#outside-czt.cpp', serves=['C01'], trusted=True, pure=True,
    ensures=[('length', 'result.len == x.len')],
-   notes='assumed: a CztPlan built as CztPlan(n, n, w) maps n samples to n points (CztPlanImpl::solve itself checks the length); '
-         'the chirp-z arithmetic is floating point over three FFTs and is outside the contracts')
+   notes='abstraction across translation units: CztPlanImpl is an incomplete type outside lib/fft/czt.cpp, so the invariant proved there (contracts/czt.py: a plan '
+         'built as CztPlan(n, m, w) maps n samples to m points) is restated here for n = m as a length clause')
+from contracts.mathfun import LIBM as _LIBM
+ENV.update({k: v for k, v in _LIBM.items() if k not in ENV})
+fn('dsplib::CztPlan::CztPlan', F, key='CztPlan::CztPlan#outside-czt.cpp', serves=['C01'], trusted=True, assigns=['this'], may_throw=True,
+   notes='abstraction across translation units: outside lib/fft/czt.cpp the constructor is only known to touch nothing but the new object (proved there: contracts/czt.py)')
 PR_OK = 'And(n_ >= 3, Implies(n_ <= 41, w_.len == n_))'
+fn('dsplib::PrimesFftC::PrimesFftC', F, key='PrimesFftC::PrimesFftC', serves=['C10', 'C01', 'C05'], assigns=['this'], may_throw=True, extra_env=ENV,
+   requires=[('size', 'And(n >= -1073741824, n <= 1073741824)')],
+   ensures=[('invariant', PR_OK), ('size', 'n_ == n'), ('prime_at_least_3', 'n_ >= 3'),
+            ('twiddle_table', 'Implies(n <= 41, And(w_.len == n, forall(lambda k: Implies(And(0 <= k, k < n), '
+                              'And(w_[k].re == COS(-2 * PI * ToReal(k) / ToReal(n)), w_[k].im == SIN(-2 * PI * ToReal(k) / ToReal(n)))))))')])
 WR, WI = 're_data(w_)', 'im_data(w_)'
 CTWW = '%s, %s, %s, %s' % (XR, XI, WR, WI)
 fn('dsplib::PrimesFftC::_dft', F, serves=['C01', 'C05'], assigns=['y'], extra_env=ENV,
